@@ -1,4 +1,4 @@
-import Aiorpcx.C01.Recv
+import Aiorpcx.C01.Commute
 import Aiorpcx.Facts.C01
 /-!
 # C01 — a response completes exactly the request that caused it
@@ -419,5 +419,366 @@ theorem step_done_mem (vr : Variant) (k : Nat) {c : Conn V} (hinv : Inv c) (op :
   | cancelAll => cases h
   | extCancel t =>
     simp only [step, Obs.done.injEq] at h; exact Or.inl h.symm
+
+theorem step_tickets (vr : Variant) (k : Nat) (c : Conn V) (op : Op V) :
+    c.futs.length ≤ (step vr k c op).1.futs.length ∧
+    ∀ t ∈ (step vr k c op).1.out.map Prod.snd, t ∈ c.out.map Prod.snd ∨ c.futs.length ≤ t := by
+  have hc : ∀ (c1 : Conn V) (p : Key × Nat → Bool) (f : Fut V),
+      c1.futs.length ≤ (complete c1 p f).1.futs.length ∧
+      ∀ t ∈ (complete c1 p f).1.out.map Prod.snd, t ∈ c1.out.map Prod.snd ∨ c1.futs.length ≤ t := by
+    intro c1 p f
+    rw [complete_out, complete_futs]
+    refine ⟨?_, fun t ht => Or.inl ((eraseP_sublist.map Prod.snd).subset ht)⟩
+    cases c1.out.find? p with
+    | none => simp [setIf]
+    | some e => simp only [setIf]; split <;> simp
+  cases op with
+  | sendRequest ok =>
+    cases ok
+    · exact ⟨Nat.le_refl _, fun t ht => Or.inl ht⟩
+    · refine ⟨by simp [step], ?_⟩
+      intro t ht
+      simp only [step, ↓reduceIte, map_append, map_cons, map_nil, mem_append, mem_singleton] at ht
+      rcases ht with h | h
+      · exact Or.inl h
+      · exact Or.inr (by omega)
+  | sendBatch ms ok =>
+    simp only [step]
+    split
+    · exact ⟨Nat.le_refl _, fun t ht => Or.inl ht⟩
+    · split
+      · exact ⟨Nat.le_refl _, fun t ht => Or.inl ht⟩
+      · refine ⟨by simp, ?_⟩
+        intro t ht
+        simp only [map_append, map_cons, map_nil, mem_append, mem_singleton] at ht
+        rcases ht with h | h
+        · exact Or.inl h
+        · exact Or.inr (by omega)
+  | recvSingle d m =>
+    rw [step_recvSingle, recvResponse_eq_act]
+    cases respAct vr _ _ with
+    | reject e => exact ⟨Nat.le_refl _, fun t ht => Or.inl ht⟩
+    | single i f => exact hc (c.settled d) (matchSingle i) f
+    | batch ids f => exact hc (c.settled d) (matchBatch ids) f
+  | recvBatch d ms =>
+    rw [step_recvBatch]
+    split
+    · exact ⟨Nat.le_refl _, fun t ht => Or.inl ht⟩
+    · rw [recvResponseBatch_eq_act]
+      cases batchAct vr _ with
+      | reject e => exact ⟨Nat.le_refl _, fun t ht => Or.inl ht⟩
+      | single i f => exact hc (c.settled d) (matchSingle i) f
+      | batch ids f => exact hc (c.settled d) (matchBatch ids) f
+  | recvOther d => exact ⟨Nat.le_refl _, fun t ht => Or.inl ht⟩
+  | cancelAll => simp [step, length_cancelTickets]
+  | extCancel t => simp only [step, length_modify]; exact ⟨Nat.le_refl _, fun t ht => Or.inl ht⟩
+
+/-- **complete_once.**  Along every history from a state satisfying the invariant, the tickets
+    completed by responses are pairwise distinct: no future is ever completed twice, whatever is
+    replayed. -/
+theorem complete_once (vr : Variant) {k : Nat} (hk : 0 < k) (ops : List (Op V)) {c : Conn V}
+    (hinv : Inv c) :
+    (completions (run vr k c ops).2).Nodup ∧
+      ∀ t ∈ completions (run vr k c ops).2, t ∈ c.out.map Prod.snd ∨ c.futs.length ≤ t := by
+  induction ops generalizing c with
+  | nil => simp [run, completions]
+  | cons op ops ih =>
+    obtain ⟨ih1, ih2⟩ := ih (step_inv vr hk hinv op)
+    obtain ⟨hlen, htk⟩ := step_tickets vr k c op
+    have later : ∀ t ∈ completions (run vr k (step vr k c op).1 ops).2,
+        t ∈ c.out.map Prod.snd ∨ c.futs.length ≤ t := by
+      intro t ht
+      rcases ih2 t ht with h | h
+      · exact htk t h
+      · exact Or.inr (by omega)
+    simp only [run]
+    cases hobs : (step vr k c op).2 with
+    | done ts =>
+      simp only [completions]
+      rcases step_done_mem vr k hinv op ts hobs with rfl | ⟨t, rfl, hin, hout⟩
+      · exact ⟨by simpa using ih1, by simpa using later⟩
+      · refine ⟨?_, ?_⟩
+        · simp only [cons_append, nil_append, nodup_cons]
+          refine ⟨?_, ih1⟩
+          intro hmem
+          rcases ih2 t hmem with h | h
+          · exact hout h
+          · obtain ⟨e, he, rfl⟩ := mem_map.1 hin
+            have := hinv.tickets_lt e he
+            omega
+        · intro t' ht'
+          simp only [cons_append, nil_append, mem_cons] at ht'
+          rcases ht' with rfl | ht'
+          · exact Or.inl hin
+          · exact later t' ht'
+    | sent _ _ => exact ⟨ih1, later⟩
+    | raised _ => exact ⟨ih1, later⟩
+    | cancelled _ => exact ⟨ih1, later⟩
+
+theorem cancelTickets_done (futs : List (Fut V)) (ts : List Nat) (t : Nat) (f : Fut V)
+    (h : futs[t]? = some f) (hf : f ≠ .pending) : (cancelTickets futs ts)[t]? = some f := by
+  induction ts generalizing futs with
+  | nil => exact h
+  | cons t' ts ih =>
+    apply ih
+    rw [getElem?_modify, h]
+    by_cases htt : t' = t
+    · cases f <;> simp_all [cancelFut]
+    · simp [htt]
+
+/-- **fut_final.**  A future that has an outcome keeps it: no operation changes a future that is
+    no longer pending. -/
+theorem fut_final (vr : Variant) (k : Nat) (c : Conn V) (op : Op V) (t : Nat) (f : Fut V)
+    (h : c.futs[t]? = some f) (hf : f ≠ .pending) : (step vr k c op).1.futs[t]? = some f := by
+  have hc : ∀ (c1 : Conn V) (p : Key × Nat → Bool) (g : Fut V), c1.futs = c.futs →
+      (complete c1 p g).1.futs[t]? = some f := by
+    intro c1 p g hc1
+    rw [complete_futs, hc1]
+    cases c1.out.find? p with
+    | none => exact h
+    | some e =>
+      simp only [setIf]
+      split
+      · rename_i hp
+        have hne : e.2 ≠ t := by
+          intro he
+          simp only [isPending, he, h] at hp
+          cases f <;> simp_all
+        simp [getElem?_set, hne, h]
+      · exact h
+  have hlt : t < c.futs.length := by
+    rcases Nat.lt_or_ge t c.futs.length with h' | h'
+    · exact h'
+    · simp [getElem?_eq_none h'] at h
+  cases op with
+  | sendRequest ok => cases ok <;> simp [step, h, getElem?_append_left hlt]
+  | sendBatch ms ok =>
+    simp only [step]
+    split
+    · exact h
+    · split
+      · exact h
+      · simp [h, getElem?_append_left hlt]
+  | recvSingle d m =>
+    rw [step_recvSingle, recvResponse_eq_act]
+    cases respAct vr _ _ with
+    | reject e => exact h
+    | single i g => exact hc (c.settled d) (matchSingle i) g rfl
+    | batch ids g => exact hc (c.settled d) (matchBatch ids) g rfl
+  | recvBatch d ms =>
+    rw [step_recvBatch]
+    split
+    · exact h
+    · rw [recvResponseBatch_eq_act]
+      cases batchAct vr _ with
+      | reject e => exact h
+      | single i g => exact hc (c.settled d) (matchSingle i) g rfl
+      | batch ids g => exact hc (c.settled d) (matchBatch ids) g rfl
+  | recvOther d => exact h
+  | cancelAll => exact cancelTickets_done _ _ _ _ h hf
+  | extCancel t' =>
+    simp only [step]
+    rw [getElem?_modify, h]
+    by_cases htt : t' = t
+    · cases f <;> simp_all [cancelFut]
+    · simp [htt]
+
+/-! ## order of arrival -/
+
+/-- the swap condition on two receive operations under protocol `p` -/
+def CompatibleOps (vr : Variant) (p : Proto) (a b : Op V) : Prop :=
+  Compatible (actOf vr p a) (actOf vr p b)
+
+/-- **order_independent.**  With the protocol settled (`some p`: any fixed protocol, or
+    AutoDetect after its first message), take any stream of received responses / response
+    batches in which no two *different* messages address the same request(s) (identical
+    replays are allowed).  Every permutation of the stream — and, inside each batch response,
+    every permutation of its members (`recv_batch_aligned`) — leaves the connection in the same
+    state: every future has the same outcome, the same requests remain outstanding. -/
+theorem order_independent (vr : Variant) (k : Nat) (p : Proto) {c : Conn V} (hinv : Inv c)
+    (hp : c.proto = some p) (ops ops' : List (Op V)) (hperm : ops ~ ops')
+    (hr : ∀ op ∈ ops, isRecv op = true) (hc : ops.Pairwise (CompatibleOps vr p)) :
+    (run vr k c ops).1 = (run vr k c ops').1 := by
+  rw [run_eq_runActs vr k p ops hr hp,
+    run_eq_runActs vr k p ops' (fun o ho => hr o (hperm.symm.subset ho)) hp]
+  exact runActs_perm hinv (hperm.map _) (by rw [pairwise_map]; exact hc)
+
+/-- responses carrying different numeric ids are always compatible -/
+theorem compatible_of_ids_ne (vr : Variant) (p : Proto) (d d' : Proto) (m m' : RawResp V)
+    (h : (processResponse vr p m).1.num2 ≠ (processResponse vr p m').1.num2) :
+    CompatibleOps vr p (.recvSingle d m) (.recvSingle d' m') := by
+  unfold CompatibleOps Compatible actOf respAct
+  repeat' split
+  all_goals simp_all [Act.sig]
+
+/-- non-vacuity of `order_independent`: answers to requests 0 and 1 and to the batch, in two
+    different orders. -/
+example :
+    let a : Op Nat := .recvSingle .v2 ⟨some (.int 0), true, .val 5⟩
+    let b : Op Nat := .recvSingle .v2 ⟨some (.int 1), true, .err 6⟩
+    let e : Op Nat := .recvBatch .v2 [⟨some (.int 3), true, .val 8⟩, ⟨some (.int 2), true, .val 7⟩]
+    [a, b, e] ~ [e, b, a] ∧ (∀ op ∈ [a, b, e], isRecv op = true) ∧
+      [a, b, e].Pairwise (CompatibleOps (repaired false false) .v2) := by
+  refine ⟨by decide, by decide, ?_⟩
+  have h : ∀ x y : Op Nat,
+      (actOf (repaired false false) .v2 x).sig ≠ (actOf (repaired false false) .v2 y).sig →
+      CompatibleOps (repaired false false) .v2 x y := fun _ _ h => Or.inr (Or.inr (Or.inr h))
+  refine Pairwise.cons ?_ (Pairwise.cons ?_ (Pairwise.cons (by simp) Pairwise.nil))
+  · intro y hy
+    simp only [mem_cons, not_mem_nil, or_false] at hy
+    rcases hy with rfl | rfl <;> exact h _ _ (by decide)
+  · intro y hy
+    simp only [mem_cons, not_mem_nil, or_false] at hy
+    subst hy
+    exact h _ _ (by decide)
+
+/-! ## bool ids (F7) -/
+
+/-- **bool_id_distinct.**  In the repaired tree a response whose id is `true`/`false` never
+    completes anything, on any protocol and whatever is outstanding (in particular not requests
+    1 / 0, although `True == 1` and `False == 0` in Python): it is rejected with `ProtocolError`
+    and the connection is unchanged.  Likewise a response batch with a bool id among its
+    members. -/
+theorem bool_id_distinct (lg sg : Bool) (k : Nat) (c : Conn V) (d : Proto) (b : Bool) :
+    (∀ (wf : Bool) (r : Res V),
+      step (repaired lg sg) k c (.recvSingle d ⟨some (.bool b), wf, r⟩) =
+        (c.settled d, .raised .protocolError)) ∧
+    (∀ ms : List (RawResp V), (∃ m ∈ ms, m.id = some (.bool b)) →
+      step (repaired lg sg) k c (.recvBatch d ms) = (c.settled d, .raised .protocolError)) := by
+  constructor
+  · intro wf r
+    rw [step_recvSingle]
+    cases hp : c.detect d <;> cases wf <;>
+      simp [processResponse, admitId, repaired, recvResponse, Id.isBool, complete_none, matchSingle,
+        pyEq, Id.num2]
+    all_goals
+      apply complete_none
+      rintro ⟨key, t⟩ _
+      cases key <;> simp [matchSingle, pyEq, Id.num2]
+  · rintro ms ⟨m, hm, hid⟩
+    rw [step_recvBatch]
+    cases hp : c.detect d with
+    | v1 => simp [Proto.allowBatches]
+    | v2 =>
+      have hmal : (ms.map (processResponse (repaired lg sg) .v2)).any (·.2.isMalformed) = true := by
+        rw [any_eq_true]
+        exact ⟨_, mem_map.2 ⟨m, hm, rfl⟩, by simp [processResponse, hid, admitId, repaired, Body.isMalformed]⟩
+      have hne : (ms.map (processResponse (repaired lg sg) .v2)).isEmpty = false := by
+        cases ms with
+        | nil => simp at hm
+        | cons _ _ => rfl
+      simp [Proto.allowBatches, recvResponseBatch, hmal, hne]
+    | loose =>
+      have hmal : (ms.map (processResponse (repaired lg sg) .loose)).any (·.2.isMalformed) = true := by
+        rw [any_eq_true]
+        exact ⟨_, mem_map.2 ⟨m, hm, rfl⟩, by simp [processResponse, hid, admitId, repaired, Body.isMalformed]⟩
+      have hne : (ms.map (processResponse (repaired lg sg) .loose)).isEmpty = false := by
+        cases ms with
+        | nil => simp at hm
+        | cons _ _ => rfl
+      simp [Proto.allowBatches, recvResponseBatch, hmal, hne]
+
+/-- the state used by the pinned-tree witnesses: requests 0 and 1 and the batch (2, 3) -/
+def witnessConn (vr : Variant) (p : Proto) : Conn Nat :=
+  (run vr 1 (Conn.init (some p) 0)
+    [.sendRequest true, .sendRequest true, .sendBatch [.req, .req] true]).1
+
+/-- **F7 on the pinned tree** (`pinned`: no bool check anywhere): `"id": true` completes request
+    1 and `"id": false` completes request 0, on 2.0 as on 1.0 … -/
+theorem bool_id_pinned_witness :
+    (step pinned 1 (witnessConn pinned .v2) (.recvSingle .v2 ⟨some (.bool true), true, .val 9⟩)).2
+      = .done [1] ∧
+    (step pinned 1 (witnessConn pinned .v2) (.recvSingle .v2 ⟨some (.bool false), true, .val 9⟩)).2
+      = .done [0] ∧
+    (step pinned 1 ((run pinned 1 (Conn.init (some .v1) 0) [.sendRequest true, .sendRequest true]).1)
+      (.recvSingle .v1 ⟨some (.bool true), true, .val 9⟩)).2 = .done [1] := by
+  decide
+
+/-- … and a response batch with ids `[true, 0]` completes the batch sent with ids (0, 1). -/
+theorem bool_id_batch_pinned_witness :
+    (step pinned 1 ((run pinned 1 (Conn.init (some .v2) 0) [.sendBatch [.req, .req] true]).1)
+      (.recvBatch .v2 [⟨some (.bool true), true, .val 8⟩, ⟨some (.int 0), true, .val 7⟩])).1.futs
+      = [.batch [.val 7, .val 8]] := by
+  decide
+
+/-- the same inputs on the repaired model: rejected, nothing completes -/
+example :
+    (step (repaired false false) 1 (witnessConn (repaired false false) .v2)
+      (.recvSingle .v2 ⟨some (.bool true), true, .val 9⟩)).2 = .raised .protocolError ∧
+    (step (repaired false false) 1
+      ((run (repaired false false) 1 (Conn.init (some .v1) 0) [.sendRequest true, .sendRequest true]).1)
+      (.recvSingle .v1 ⟨some (.bool true), true, .val 9⟩)).2 = .raised .protocolError := by
+  decide
+
+/-! ## cancellation -/
+
+/-- `cancel_pending_requests` empties the table and leaves every future that already had an
+    outcome alone (`fut_final`); every future that was outstanding and pending is cancelled. -/
+theorem cancel_all (vr : Variant) (k : Nat) {c : Conn V} (e : Key × Nat) (he : e ∈ c.out)
+    (hp : isPending c.futs e.2 = true) :
+    (step vr k c .cancelAll).1.out = [] ∧
+      (step vr k c .cancelAll).1.futs[e.2]? = some .cancelled := by
+  refine ⟨rfl, ?_⟩
+  simp only [step]
+  have hmem : e.2 ∈ c.out.map Prod.snd := mem_map.2 ⟨e, he, rfl⟩
+  generalize c.out.map Prod.snd = ts at hmem
+  -- once cancelled it stays cancelled; the first occurrence in `ts` cancels it
+  have key : ∀ (ts : List Nat) (futs : List (Fut V)),
+      (futs[e.2]? = some .cancelled ∨ (futs[e.2]? = some .pending ∧ e.2 ∈ ts)) →
+      (cancelTickets futs ts)[e.2]? = some .cancelled := by
+    intro ts
+    induction ts with
+    | nil => intro futs h; rcases h with h | ⟨_, h⟩; exact h; simp at h
+    | cons t ts ih =>
+      intro futs h
+      apply ih
+      rw [getElem?_modify]
+      rcases h with h | ⟨h, hm⟩
+      · left; rw [h]; by_cases htt : t = e.2 <;> simp [htt, cancelFut]
+      · by_cases htt : t = e.2
+        · left; rw [h]; simp [htt, cancelFut]
+        · right
+          refine ⟨by rw [h]; simp [htt], ?_⟩
+          rcases mem_cons.1 hm with h' | h'
+          · exact absurd h'.symm htt
+          · exact h'
+  apply key
+  right
+  refine ⟨?_, hmem⟩
+  simp only [isPending] at hp
+  split at hp
+  · assumption
+  · cases hp
+
+/-! ## ties to the source (facts regenerated from /repo on every run) -/
+
+open Aiorpcx.Facts.C01 in
+/-- the id counter advances by a positive step (the hypothesis of `ids_fresh`) -/
+theorem facts_id_step_pos : 0 < idStep := by decide
+
+open Aiorpcx.Facts.C01 in
+/-- `_message_id` admits exactly the id types the (repaired) model admits:
+    int, float, str, null, bool, list, dict × 1.0 / 2.0 / Loose -/
+theorem facts_admit_table :
+    let samples : List Id := [.int 1, .half 3, .str [97], .null, .bool true, .unhashable 0,
+      .unhashable 1]
+    samples.map (admitId (repaired lookupGuarded sortGuarded) .v1) = admitV1 ∧
+    samples.map (admitId (repaired lookupGuarded sortGuarded) .v2) = admitV2 ∧
+    samples.map (admitId (repaired lookupGuarded sortGuarded) .loose) = admitLoose := by
+  decide
+
+open Aiorpcx.Facts.C01 in
+/-- a 1.0 response with a bool id cannot select request 1 (second hunk of F07) -/
+theorem facts_conn_rejects_bool : connRejectsBool = true := by decide
+
+open Aiorpcx.Facts.C01 in
+/-- `allow_batches` of 1.0, 2.0, Loose, and of AutoDetect before detection (treated as 2.0) -/
+theorem facts_allow_batches :
+    allowBatches = [Proto.allowBatches .v1, Proto.allowBatches .v2, Proto.allowBatches .loose,
+      Proto.allowBatches .v2] := by decide
+
+open Aiorpcx.Facts.C01 in
+/-- `_receive_response_batch` sorts once, ascending, on the id component of the pairs -/
+theorem facts_sort_key : sortedCalls = 1 ∧ sortKeyIndex = 0 ∧ sortReverse = false := by decide
 
 end Aiorpcx.C01
